@@ -33,9 +33,10 @@
     72 sampled `ord` in the given quad order and three others, disjoint from them, in the reversed quad
     order; the bytes are the same in all runs).  Byte-level invariance under quad order needs the
     automorphism argument of RDFC-1.0 and stays with the harness.
-  * The theorem has the form "if both runs return a result, the results agree"; that a work-limit
-    error on one side implies one on the other is true of the specification (`spec_equivariant` is an
-    equation) but is not transferred to the model here.
+  * The theorem about the model has the form "if both runs return a result, the results agree"; it does
+    not exclude that one side ends in one of Go's two work-limit errors and the other does not.  (The
+    specification has no work limits; for it `spec_equivariant` is an equation of outcomes, "no result
+    for this recursion bound" included.)
 -/
 import RdfModel.Props.C03
 import RdfModel.Proofs.C03Rename
